@@ -27,7 +27,10 @@ func DefaultBackoffConfig() BackoffConfig {
 
 func CalculateBackoff(cfg BackoffConfig, attempt int) time.Duration {
 	backoff := float64(cfg.InitialBackoff) * math.Pow(cfg.BackoffMultiplier, float64(attempt))
-	if backoff > float64(cfg.MaxBackoff) {
+	// Written as "not below the cap" so that NaN (0 * +Inf for a zero
+	// InitialBackoff and a huge attempt) is capped too: NaN fails every
+	// comparison and would otherwise reach the conversion below.
+	if !(backoff <= float64(cfg.MaxBackoff)) {
 		backoff = float64(cfg.MaxBackoff)
 	}
 
